@@ -9,13 +9,13 @@ CONSTANTS MaxSet, MaxSigns, MatShapes, MatVals
 Small == 1..300
 \* int8: N-1, N, N+1, (near) multiples of N (2N gives exact ties at every odd v), 2^15, 2^16
 MC8_Near == {126, 127, 128, 253, 254, 255, 380, 381, 382, 508, 635, 1016, 2032}
-MC8_Max  == Small \cup MC8_Near \cup {32767, 65535}
-MC8T_Max == MC8_Max \cup {32766, 32768, 65534} \cup (301..400)
+MC8_Max  == Small \cup MC8_Near \cup {32767}
+MC8T_Max == MC8_Max \cup {32766, 32768, 65534, 65535} \cup (301..400)
 \* int16: 32767 = 7*31*151; a divisor gives integer ratios, twice a divisor exact ties,
 \* N/3 and N/2 neighbours give near ties
-MC16_Near == {217, 434, 1057, 2114, 4681, 9362, 10922, 10923, 16383, 16384}
+MC16_Near == {217, 434, 1057, 2114, 4681, 9362}
 MC16_Max  == Small \cup MC16_Near \cup {32767}
-MC16T_Max == MC16_Max \cup {32766, 32768} \cup (301..400)
+MC16T_Max == MC16_Max \cup {10922, 10923, 16383, 16384, 32766, 32768} \cup (301..400)
 OneSign == {1}
 BothSigns == {-1, 1}
 ColInit == \E m \in MaxSet : \E v \in (-m)..m : \E s \in MaxSigns :
